@@ -20,6 +20,36 @@ CLAIMS = {
   "text": "Theorems editor_no_panic, cursor_in_bounds, submit_eq_reference (and commands_eq_split for the `;` splitting) hold for every key sequence of any length, every character classifier and every history of non-blank lines. The model of terminal.rs is tied to the Rust code on every run by driving the real handle_key/read_line/get_next_command through cfg(verif) hooks on all key sequences up to length 4 (5 thorough) over a 15-key alphabet from three histories plus random long sequences, comparing buffer, cursor, history index, current line and submitted text after every key, three-way with the reference editor.",
   "note": "Trusted: Lean kernel; axioms propext, Quot.sound; Unicode classification (is_whitespace/is_alphanumeric) is a parameter of the model supplied by Rust at run time; crossterm key decoding, prompt drawing and history-file I/O are not modelled.",
   "ref": "DESIGN.md §4 C20"},
+ "C05": {
+  "technique": "Lean 4 proof (assembler model never returns a panic outcome, diagnostics point inside the source, every token consumes input; termination = Lean's totality check) + differential correspondence on grammar-derived, mutated and multi-byte texts",
+  "text": "Theorems assemble_no_panic, diag_points_inside, token_progress, assemble_terminates hold for every text (List Char) and both feature settings: every Rust panic site of lexer/parser/AIR (slicing, unreachable!, assert!, u16/i16 overflow) is an explicit outcome of the model and is proved unreachable. The model is tied to the Rust code on every run by assembling ~30k generated texts (grammar-derived programs with token-, byte- and UTF-8-level mutations, size extremes, a corpus of all past witnesses) in both and comparing outcome class, diagnostic kind and span, origin, every word, every statement span and the .break addresses; no-unwind, Report rendering and label-in-source are also checked directly on the implementation.",
+  "note": "Trusted: Lean kernel; axioms propext, Classical.choice, Quot.sound; model validated by differential testing; miette rendering exercised, not modelled; memory exhaustion from many `.blkw xFFFF` is out of scope.",
+  "ref": "DESIGN.md §4 C05"},
+ "C06": {
+  "technique": "Lean 4 proof (object-file bytes round-trip, run(obj) = run(src), loader accepts iff loadable, never panics) + process-mode correspondence against the real lace binary",
+  "text": "Theorems obj_length, words_of_obj, run_obj_eq_run_src, loader_accepts_iff, loader_never_panics (with C03 load_spec) hold for all word lists, origins and byte strings. The CLI model is tied to the code on every run by spawning the real `lace compile` / `lace run` on generated programs and arbitrary byte files and comparing written bytes, stdout and exit status with the model and the object run with the source run.",
+  "note": "Trusted: Lean kernel; axioms propext, Classical.choice, Quot.sound; clap and the OS file system; sources are .orig/.fill programs here (instruction encoding is C01).",
+  "ref": "DESIGN.md §4 C06"},
+ "C07": {
+  "technique": "Lean 4 proof (in the model of main.rs check/compile/run succeed at assembling iff the one assemble() does, for every assembler behaviour incl. emission failure at any statement) + process-mode correspondence of the three commands' exit statuses",
+  "text": "Theorems check_ok_imp_compile_ok, compile_err_imp_check_err_and_run_err, check_compile_run_agree, emission_error_fails_check hold for every parse result and every pattern of per-statement emission failures. The model is tied to the code on every run by spawning the real check/compile/run under both feature settings on sources whose only error surfaces at emission (every PC-relative instruction, every statement position, limit-1/limit/limit+1), stack-mnemonic sources and ordinary ones; statuses are compared with the model (driven by the assembler model) and checked directly against the property predicate.",
+  "note": "Trusted: Lean kernel; axioms propext, Classical.choice, Quot.sound; clap; `lace watch` is not spawned (it calls the same assemble(); its state reset is C19).",
+  "ref": "DESIGN.md §4 C07"},
+ "C08": {
+  "technique": "Lean 4 proof (compile over an abstract file system is all-or-nothing for every emission-failure pattern and destination kind) + process-mode fault enumeration against the real lace binary",
+  "text": "Theorems compile_all_or_nothing, compile_fail_at, compile_unwritable hold for every assembler outcome, every statement position of an emission failure and every destination kind (absent / existing regular file / /dev/full / uncreatable). Tied to the code on every run by spawning the real `lace compile` with a failure injected at each statement position and with each destination kind and comparing exit status and destination bytes with the model and directly with the all-or-nothing predicate. PARTIAL by nature: a write that fails half-way on a regular file is OS behaviour outside the file-system model.",
+  "note": "Trusted: Lean kernel; axioms propext, Classical.choice, Quot.sound; the three-destination file-system model (create/write_all/flush semantics) is an assumption validated only by the spawns.",
+  "ref": "DESIGN.md §4 C08"},
+ "C14": {
+  "technique": "Lean 4 proof (integer/command parsers = declarative grammar on all strings, no panic, argument reader = stdin reader, transport independence, `;` = newline) + exhaustive/differential correspondence through cfg(verif) hooks",
+  "text": "Theorems parse_integer_eq_grammar, parse_command_eq_grammar, parse_no_panic, reader_lines_valid, read_no_panic, session_no_panic, split_argument_eq_split_stdin, session_eq_lines, transport_independent (+ _semicolon, _argument_only), separators_equivalent, session_eq_script, commandTable_unambiguous, parse_offsets_in_range hold for all strings of any length. The model is tied to the code on every run by parsing ~500k lines (all argument strings up to length 4/5 over a 16-symbol alphabet in 5 templates, boundary literals in every radix, every command name/alias/misspelling in three cases, random multi-byte lines) and every argument/stdin split of 200 scripts through the real parser and readers.",
+  "note": "Trusted: Lean kernel; axioms propext, Classical.choice, Quot.sound; str::trim's White_Space set and ASCII case mapping transcribed; the interactive terminal reader is C20. Known finding K1: `sudo` exits the process (deliberate easter egg).",
+  "ref": "DESIGN.md §4 C14"},
+ "C19": {
+  "technique": "Lean 4 proof (assembler model threads the symbol table explicitly; after reset the result is independent of what was assembled before) + sequence correspondence on one thread vs fresh threads",
+  "text": "Theorems reset_eq_empty, assemble_after_reset, assemble_deterministic, runSeq_reset_eq_map, watch_recheck_eq_check (and stale_table_matters: without the reset the result DOES depend on history) hold for every symbol table left behind and every source. Purity is structural in a functional model, so the property is carried by the correspondence: sequences of 2-6 sources (valid, failing in the lexer, failing after labels were recorded, sharing label names) assembled on one thread with reset_state() between them vs each on a fresh thread vs the model's runSeq.",
+  "note": "Trusted: Lean kernel; axioms propext, Classical.choice, Quot.sound; any hidden state other than the symbol table and feature flags would be visible only to the correspondence, not to the theorem.",
+  "ref": "DESIGN.md §4 C19"},
 }
 
 def main():
